@@ -1,0 +1,7 @@
+//go:build !verif
+
+package p9
+
+// verifPoint is a no-op unless the package is built with the "verif" tag (see
+// verif_point.go).
+func verifPoint(string) {}
